@@ -453,6 +453,26 @@ def main():
             sys.exit(1)
         if undecided:
             for u in undecided[:10]: print("UNDECIDED %s" % u)
+            # The deductive check could not decide (tool limit on the changed text: lost anchor, a helper the unit does not
+            # extract, an unsupported construct, resource limit).  That alone is never an alarm.  But obligations that were
+            # discharged on the unchanged tree are no longer established, so the boundary-input enumeration is run on the REAL
+            # crate; a concrete failing input replayed there IS a violation (reported as such, with the reason the proof was
+            # undecided); without one the answer stays UNDECIDED (exit 2).
+            import replay
+            try:
+                witness = replay.find_witness(prop, [], a.repo, scratch)
+            except Exception as e:
+                witness = {"found": False, "error": repr(e)}
+            if witness and witness.get("found"):
+                os.makedirs(os.path.join(ROOT, "replay", "out"), exist_ok=True)
+                rp = os.path.join(ROOT, "replay", "out", "%s-%d.json" % (prop, int(time.time())))
+                json.dump({"property": prop, "failed_obligations": [{"unit": u.split(":")[0], "message": "obligations of this unit could not be re-established on the changed tree", "clause": u} for u in undecided],
+                           "deductive_verdict": "undecided", "witness": witness}, open(rp, "w"), indent=1)
+                ev["violations"] = 1; ev["coverage"]["replay_file"] = rp
+                ev["coverage"]["notes"] = ev["coverage"].get("notes", []) + ["deductive check undecided; violation reported on the strength of a concrete failing input replayed on the real crate"]
+                json.dump(ev, open(os.path.join(evdir, prop + ".json"), "w"), indent=1)
+                print("VIOLATION property=%s replay=%s" % (prop, rp))
+                sys.exit(1)
             sys.exit(2)
         print("OK property=%s obligations=%d discharged=%d units=%s wall=%.1fs" % (prop, obligations, discharged, ",".join(r["unit"] for r in results), wall))
         sys.exit(0)
